@@ -66,7 +66,9 @@ def narrowing(ctx, cfg):
         t = seen[-1]
         ctx.check(z3.fpEQ(t.t, z3.fpToFP(fp.RNE, z3.fpToFP(fp.RNE, p.t, fp.F32), fp.D)), "rate-is-narrowed-request")
         ctx.check(z3.fpEQ(t.t, z3.fpToFP(fp.RNE, z3.fpToFP(fp.RNE, t.t, fp.F32), fp.D)), "rate-is-float32-fixed-point")
-        if ctx.fork(z3.fpLT(t.t, z3.FPVal(1.0, fp.D))):       # a stored rate of exactly 1.0f cannot occur: ln 1 = 0 gives zero hashes (rejected)
+        # a stored rate of exactly 1.0f cannot occur: ln 1 = 0 gives zero hashes (rejected); nor can 0.0f (a request that narrows to
+        # zero ends in ln 0 = ValueError in the constructor)
+        if ctx.fork(z3.And(z3.fpLT(t.t, z3.FPVal(1.0, fp.D)), z3.fpGT(t.t, z3.FPVal(0.0, fp.D)))):
             try:
                 class _Footer:      # a footer whose fields are (est, 0, the stored binary32 rate): the REAL _parse_footer runs on it
                     size = 20
